@@ -527,9 +527,29 @@ def split_tuple_lets(root):
             n["stmts"] = out
 
 
+def apply_ctor_values(root):
+    """`let mk = Expr::BVAnd; mk(a, b, w)` (a constructor passed as a function value, e.g. to an inlined helper) is the construction itself"""
+    lets = {}
+    for n in walk(root):
+        if n.get("k") == "let" and "init" in n and n["pat"].get("k") == "pbind" and not n["pat"].get("mut"):
+            init = peel(n["init"])
+            if init.get("k") == "def" and str(init.get("dk", "")).startswith("ctor"):
+                lets[n["pat"]["id"]] = init
+    if not lets:
+        return
+    for n in walk(root):
+        if n.get("k") == "callv" and peel(n["f"]).get("k") == "local" and peel(n["f"])["id"] in lets:
+            d = lets[peel(n["f"])["id"]]
+            n["k"] = "ctor"
+            n["dk"] = d.get("dk")
+            n["path"] = d["path"]
+            n.pop("f", None)
+
+
 def prepare(f, crate):
     """inlined copy + alias registration (idempotent per function object)"""
     g = inline_helpers(f, crate)
+    apply_ctor_values(g["body"])
     split_tuple_lets(g["body"])
     _tree.ALIASES.update(collect_aliases(g))
     for n in walk(g["body"]):
